@@ -116,7 +116,9 @@ def shapes(tier):
             if l == "":
                 continue
             ln = {"b": "b", "o": "o", "x": "lx", "X": "ux", "e": "le", "E": "ue", "p": "p", "?": "dbg"}[l]
-            bare.append(("bare_type_%s_arg" % ln, '#[%s("{:%s}", _1)]\n' % (attr, l) + two, c2, "s.1.id", lt, l in ("x", "?", "p")))
+            # `{:p}` with the field as argument formats a *reference* to the field (std prints its address): the probe's own Pointer impl is
+            # reached through `*_1`, as in the repository's own tests
+            bare.append(("bare_type_%s_arg" % ln, '#[%s("{:%s}", %s_1)]\n' % (attr, l, "*" if l == "p" else "") + two, c2, "s.1.id", lt, l in ("x", "?", "p")))
             bare.append(("bare_type_%s_field" % ln, '#[%s("{_0:%s}")]\n' % (attr, l) + two, c2, "s.0.id", lt, l in ("X", "e")))
         for name, body, ctor, idx, seen, quick in bare:
             add(name, D + body, passthrough_harness("flags_pass_through", trait, ctor, idx, seen), [PT], quick)
